@@ -181,6 +181,10 @@ def prepare(ctx, module, theorems, need_driver=True, extra_targets=()):
         if info['module']:
             res, raw = audit(ctx, module, theorems)
             info['audit'] = res
+            if ctx.tier == 'thorough':
+                # independent re-check of the compiled module by the toolchain's external checker
+                rc2, out2 = sh(['lake', 'env', 'leanchecker', module], cwd=LEAN_DIR, timeout=3000)
+                ctx.oblige(f'leanchecker {module}', 'audit', rc2 == 0, out2[-600:])
     failed = {e['decl'] for e in info['build_errors'] if e.get('decl')}
     for t in theorems:
         short = t.split('.')[-1]
